@@ -43,14 +43,19 @@ abbrev Bytes := List Nat
   error, the code as written; `true` = cleared, the repair).
 * `eorDrops`: BMP, Dumping phase: a Route Monitoring UPDATE for which routecore's
   `is_eor()` answers "End-of-RIB" is consumed as the marker and its routes are never
-  extracted (`true`, the code as written); `false` = its routes are still extracted. -/
+  extracted (`true`, the code as written); `false` = its routes are still extracted.
+* `mrtForcesAs4`: MRT, BGP4MP_MESSAGE (2-octet AS) records are parsed with
+  `SessionConfig::modern()` like BGP4MP_MESSAGE_AS4 ones (`routecore::mrt::MessageAs4::
+  bgp_msg`, reached through `msg.into()` in `mrt_file_in/unit.rs`), so their attribute
+  maps are tagged 4-octet-AS (`true`, the code as written); `false` = tagged as recorded. -/
 structure Variant where
   maskPad : Bool
   eorDrops : Bool
+  mrtForcesAs4 : Bool
   deriving DecidableEq, Repr
 
-def asWritten : Variant := ⟨false, true⟩
-def repaired : Variant := ⟨true, false⟩
+def asWritten : Variant := ⟨false, true, true⟩
+def repaired : Variant := ⟨true, false, false⟩
 
 /-- Big-endian 16 bit. -/
 def u16 (n : Nat) : Bytes := [n / 256, n % 256]
@@ -372,5 +377,11 @@ def runBmpDumping (v : Variant) (as4 : Bool) (bs : Bytes) : Option (List Event) 
   match decode v bs with
   | none => none
   | some u => if v.eorDrops && isEorRc u then some [] else events v as4 u
+
+/-! ### The MRT update-file path -/
+
+/-- One BGP4MP_MESSAGE (`as4 = false`) / BGP4MP_MESSAGE_AS4 (`as4 = true`) record. -/
+def runMrt (v : Variant) (as4 : Bool) (bs : Bytes) : Option (List Event) :=
+  run v (v.mrtForcesAs4 || as4) bs
 
 end Rotonda.Codec
